@@ -140,7 +140,7 @@ func propC07() *Prop {
 			js = append(js, job("C07a/init", "circuitbreaker", "VerifC07Init"))
 			js = append(js, job("C07a/inductive-step[thresholds<=3]", "circuitbreaker", "VerifC07Step", 3))
 			js = append(js, job("C07a/inductive-step[thresholds<=2^30]", "circuitbreaker", "VerifC07Step", 1<<30))
-			for k := int64(4); k <= tierPick(tier, 4, 6); k++ {
+			for k := int64(4); k <= tierPick(tier, 4, 5); k++ {
 				js = append(js, job(fmt.Sprintf("C07a/histories[k=%d]", k), "circuitbreaker", "VerifC07Seq", k))
 			}
 			js = append(js, neg(job("C07a/negative-twin", "circuitbreaker", "VerifC07NegStep")))
@@ -154,7 +154,7 @@ func propC07() *Prop {
 		Assumptions: commonAssumptions,
 		Bounds: map[string]string{
 			"quick":    "sequential: constructor + one inductive step from any invariant state (thresholds up to 2^30, any interval/timeout in 1ns..2^40ns, any elapsed time) = histories of any length; plus explicit histories of <= 4 events over {ok, error, panic, time passes}, thresholds 1..3",
-			"thorough": "same, explicit histories <= 6 events",
+			"thorough": "same, explicit histories <= 5 events",
 		},
 		Outside: []string{"durations above 2^40 ns", "time advancing inside one Execute call"},
 	}
